@@ -319,6 +319,68 @@ def run_model(pid, imports, harness, pairs, shard=None, procs=16, timeout=1500):
 
 
 # --------------------------------------------------------------------------
+# model side, fast path: the extracted OCaml driver (ocaml/, ExtrOcamlBasic only)
+
+def ocaml_build():
+    """(Re)extracts and compiles ocaml/model_driver when a Coq source is newer."""
+    d = os.path.join(ROOT, "ocaml")
+    exe = os.path.join(d, "model_driver")
+    srcs = [os.path.join(COQ, f) for f in os.listdir(COQ) if f.endswith(".v")] + [os.path.join(d, "driver.ml"), os.path.join(d, "extract.v")]
+    if os.path.exists(exe) and all(os.path.getmtime(x) <= os.path.getmtime(exe) for x in srcs):
+        return True, ""
+    rc, out = sh("flock %s/.lock sh -c 'coqc -noglob -Q %s Parsley extract.v && "
+                 "ocamlfind ocamlopt -O3 model.mli model.ml driver.ml -o model_driver'" % (COQ, COQ), cwd=d, timeout=1800)
+    return rc == 0, out
+
+
+def _fast_chunk(args):
+    which, pairs, timeout = args
+    exe = os.path.join(ROOT, "ocaml", "model_driver")
+    inp = "".join("%s\t%s\n" % (c, o) for c, o in pairs)
+    rc, out = sh(["sh", "-c", "ulimit -s unlimited; exec %s %d" % (exe, which)], inp=inp, timeout=timeout)
+    res = {}
+    for line in out.split("\n"):
+        parts = line.split(" ", 3)
+        if len(parts) >= 3 and parts[0].isdigit():
+            res[int(parts[0])] = (parts[1], parts[2], parts[3] if len(parts) > 3 else "")
+    return rc, res, out[-2000:]
+
+
+def run_model_fast(pid, which, pairs, procs=16, timeout=1500):
+    ok, out = ocaml_build()
+    if not ok:
+        return [], [], {}, [{"error": "ocaml build failed: " + out[-3000:], "shard": -1}]
+    normal = [i for i, (c, o) in enumerate(pairs) if '"Timeout"' not in o and '"Crash"' not in o]
+    solo = [i for i in range(len(pairs)) if i not in set(normal)]
+    size = max(1, (len(normal) + procs - 1) // procs)
+    chunks = [normal[k:k + size] for k in range(0, len(normal), size)] + [[i] for i in solo]
+    nfull = len(chunks) - len(solo)
+    jobs = [(which, [pairs[i] for i in idx], timeout if k < nfull else 25) for k, idx in enumerate(chunks)]
+    with ThreadPoolExecutor(max_workers=procs) as ex:
+        res = list(ex.map(_fast_chunk, jobs))
+    disagree, violate, details, errors = [], [], {}, []
+    for k, (rc, r, tail) in enumerate(res):
+        idx = chunks[k]
+        if k >= nfull and len(r) < 1:
+            BUDGET_CUT.append(idx[0])
+            continue
+        if len(r) != len(idx):
+            errors.append({"error": "model driver stopped after %d of %d cases (rc=%s): %s; next case: %s" % (
+                len(r), len(idx), rc, tail[-300:], pairs[idx[len(r)]][0][:500] if len(r) < len(idx) else ""), "shard": k})
+        for j, (d, v, e) in r.items():
+            if d == "E":
+                errors.append({"error": "model driver: %s on case %s" % (e, pairs[idx[j]][0][:500]), "shard": k})
+                continue
+            if d == "1":
+                disagree.append(idx[j])
+            if v == "1":
+                violate.append(idx[j])
+            if e:
+                details[idx[j]] = e
+    return disagree, violate, details, errors
+
+
+# --------------------------------------------------------------------------
 # known findings
 
 def known_findings(pid):
@@ -429,8 +491,20 @@ def standard_check(mod, tier, seed, replay=None):
     # 4. model + oracle
     disagree, violate, details, errors = ([], [], {}, [])
     if ok:
-        disagree, violate, details, errors = run_model(pid, mod.IMPORTS, mod.HARNESS, list(zip(lines, obs)),
-                                                       shard=getattr(mod, "SHARD", None))
+        pairs = list(zip(lines, obs))
+        if hasattr(mod, "FAST") and os.environ.get("VERIF_MODEL", "ocaml") == "ocaml":
+            disagree, violate, details, errors = run_model_fast(pid, mod.FAST, pairs)
+            k = getattr(mod, "CROSSCHECK", {}).get(tier, 0)
+            if k:   # cross-check of the extraction: the same definitions evaluated by vm_compute on a sample
+                sample = [i for i in range(len(pairs)) if '"Timeout"' not in obs[i] and '"Crash"' not in obs[i]][:k]
+                d2, v2, _, e2 = run_model(pid, mod.IMPORTS, mod.HARNESS, [pairs[i] for i in sample])
+                if e2 or sorted(sample[i] for i in d2) != sorted(i for i in disagree if i in set(sample)) or \
+                        sorted(sample[i] for i in v2) != sorted(i for i in violate if i in set(sample)):
+                    errors.append({"error": "extracted driver and vm_compute disagree on the cross-check sample: %r %r %r" % (d2, v2, e2)})
+                log("%s: extraction cross-checked by vm_compute on %d cases" % (pid, len(sample)))
+        else:
+            disagree, violate, details, errors = run_model(pid, mod.IMPORTS, mod.HARNESS, pairs,
+                                                           shard=getattr(mod, "SHARD", None))
         for e in errors:
             problems.append({"kind": "model-evaluation", "log": e["error"]})
         log("%s: model evaluation %.1fs" % (pid, time.time() - t1))
